@@ -1,10 +1,11 @@
 """Extraction driver for C10, executed in a subprocess against the scratch build (harness.util.run_py).
 
-It follows run_haplotag up to the call of prepare_haplotag_information, calling the *real* functions
-(VcfReader(phases=True), compute_variant_file_samples_to_use, compute_shared_samples,
-normalize_user_regions, load_chromosome_variants, get_variant_information, PhasedInputReader.read) and
-dumps what the Gallina model takes as data: the iteration order of `shared_samples`, the parsed regions,
-per chromosome and sample the variant table column and the read set the real ReadSetReader detected.
+It follows run_haplotag up to and including the call of prepare_haplotag_information, calling the *real*
+functions (VcfReader(phases=True), compute_variant_file_samples_to_use, compute_shared_samples,
+normalize_user_regions, load_chromosome_variants, prepare_haplotag_information with a recording wrapper
+around PhasedInputReader.read) and dumps what the Gallina model takes as data: the order in which the
+real code processes the samples, the parsed regions, per chromosome and sample the variant table column
+and the read set the real ReadSetReader detected.
 stdin: json {vcf, bam, ref (path or None), opts}; stdout: one json object.
 """
 import json
@@ -46,12 +47,32 @@ def main():
                                 o["ignore_read_groups"], only_snvs=False, duplicates=True)
         has_alignments = H.contigs_with_alignments(bam_reader)
         chroms = {}
+
+        class Spy:
+            """records, in call order, the (sample, read set) pairs prepare_haplotag_information asks for"""
+            def __init__(self):
+                self.calls = []
+
+            def read(self, chromosome, variants, sample, regions=None):
+                rs, x = pir.read(chromosome, variants, sample, regions=regions)
+                self.calls.append((sample, [v.position for v in variants], rs))
+                return rs, x
+        order = None
         for chrom, regions in user_regions.items():
             if chrom not in has_alignments:
                 continue
             table = H.load_chromosome_variants(vcf_reader, chrom, regions)
+            spy = Spy()
+            # the real function decides the sample order (set iteration / sorted(...)) and what is read
+            H.prepare_haplotag_information(table, shared, spy, regions, o["ignore_linked_read"],
+                                           50000 if o.get("cutoff") is None else o["cutoff"], ploidy)
             entry = {"rows": {}, "reads": {}}
-            for sample in shared:
+            this_order = [c[0] for c in spy.calls]
+            if order is None:
+                order = this_order
+            elif order != this_order:
+                raise RuntimeError(f"sample order differs between chromosomes: {order} / {this_order}")
+            for sample, vpos, read_set in spy.calls:
                 genotypes = table.genotypes_of(sample)
                 phases = table.phases_of(sample)
                 rows = []
@@ -62,15 +83,15 @@ def main():
                         p = [int(ph.block_id), [int(x) for x in ph.phase]]
                     rows.append([v.position, bool(gt.is_homozygous()), p])
                 entry["rows"][sample] = rows
-                _, variants = H.get_variant_information(table, sample)
-                entry["variant_positions_" + sample] = [v.position for v in variants]
-                read_set, _ = pir.read(table.chromosome, variants, sample, regions=regions)
+                entry["variant_positions_" + sample] = vpos
                 reads = []
                 for read in read_set:
                     reads.append([read.name, read.reference_start, read.BX_tag if read.has_BX_tag() else None,
                                   [[v.position, v.allele, v.quality] for v in read]])
                 entry["reads"][sample] = reads
             chroms[chrom] = entry
+        if order is not None:
+            out["samples_order"] = order
         out["chroms"] = chroms
     except BaseException as e:  # the CLI run decides what an error means; here it is only recorded
         out["error"] = f"{type(e).__name__}: {e}"
